@@ -125,8 +125,69 @@ def s_of(v):
 
 # ----------------------------------------------------------------------------- generator
 # how many Rust types the harness can carry a string in, per position (harness/ssr/src/c06.rs)
-N_ATTR_TYPES, N_CLASS_TYPES, N_STYLE_TYPES, N_PROP_TYPES, N_PROP_KEY_TYPES, N_TEXT_TYPES = 24, 22, 19, 16, 3, 19
+N_ATTR_TYPES, N_CLASS_TYPES, N_STYLE_TYPES, N_PROP_TYPES, N_PROP_KEY_TYPES, N_TEXT_TYPES = 31, 29, 26, 21, 3, 27
 N_BOOL_TYPES, N_TOGGLE_TYPES = 2, 3
+
+
+# ---- primitives (render_primitive! in view/primitives.rs and html/attribute/value.rs): (k n) -> Display
+FLOATS = ["0.5", "1", "-2.25", "NaN", "inf", "-inf", "1000000000000000000000", "-0"]
+N_PRIMS = 20
+
+
+def _wrap(n, bits, signed):
+    n &= (1 << bits) - 1
+    return n - (1 << bits) if signed and n >> (bits - 1) else n
+
+
+def prim_text(k, n):
+    if k in (0, 1, 2, 3):
+        return str(_wrap(n, [8, 16, 32, 64][k], False))
+    if k == 4:
+        return str((_wrap(n, 64, False) << 64) | 7)
+    if k == 5:
+        return str(_wrap(n, 64, False))
+    if k in (6, 7, 8):
+        return str(_wrap(n, [8, 16, 32][k - 6], True))
+    if k == 9:
+        return str(n << 64)
+    if k == 10:
+        return str(n)
+    if k in (11, 12):
+        return FLOATS[_wrap(n, 64, False) % 8]
+    if k == 13:
+        return "127.0.0.1" if n % 2 == 0 else "::1"
+    if k == 14:
+        return "[::1]:%d" % _wrap(n, 16, False)
+    if k == 15:
+        return str(_wrap(n, 32, False) | 1)
+    if k == 16:
+        return str(n | 1)
+    if k == 17:
+        return "10.0.0.%d" % _wrap(n, 8, False)
+    if k == 18:
+        return "true" if n else "false"
+    return chr(n)
+
+
+def gen_prim(rng):
+    k = rng.randrange(N_PRIMS)
+    if k == 19:
+        return [k, ord(rng.choice(['"', "<", ">", "&", "'", "\0", "a", "\u00e9", "\U0001F600", "\r", " ", "/", "="]))]
+    # (the model's driver reads 63-bit integers: the whole case must stay below 2^62)
+    return [k, rng.choice([0, 1, -1, 7, 255, 256, 65535, 2 ** 31, 2 ** 62 - 1, -(2 ** 62), rng.randint(-1000, 1000)])]
+
+
+# inner_html is raw by contract: fixed well-formed snippets (harness: SNIPPETS) and what they parse to
+SNIPPET_TREES = [
+    [("el", "b", [], [("text", "x")])],
+    [("text", "a & b")],
+    [("el", "i", [("title", 'q"')], [("text", "y")]), ("el", "br", [], [])],
+    [],
+    [("el", "ul", [], [("el", "li", [], [("text", "1")]), ("el", "li", [], [("text", "2")])])],
+    [("text", "<not a tag>")],
+]
+N_INNER_TYPES = 6
+OUTER_NAMES = ["data-o1", "data-o2", "data-o3"]
 
 
 def ty(rng, n):
@@ -134,8 +195,10 @@ def ty(rng, n):
     return 0 if rng.random() < 0.5 else rng.randrange(n)
 
 
-def gen_attrs(rng, tag):
+def gen_attrs(rng, tag, inner=False):
     out = []
+    if inner and rng.random() < 0.5:
+        out.append([8, rng.randrange(len(SNIPPET_TREES)), rng.randrange(N_INNER_TYPES)])
     names = list(ATTR_NAMES)
     bools = list(BOOL_NAMES)
     rng.shuffle(names)
@@ -143,7 +206,9 @@ def gen_attrs(rng, tag):
     have_id = False
     for _ in range(rng.choice([0, 0, 1, 1, 2, 3, 4])):
         r = rng.random()
-        if r < 0.40 and names:
+        if r < 0.05 and names:
+            out.append([7, b(names.pop())] + gen_prim(rng))
+        elif r < 0.40 and names:
             out.append([0, b(names.pop()), b(text(rng)), ty(rng, N_ATTR_TYPES)])
         elif r < 0.48 and bools:
             out.append([1, b(bools.pop()), rng.randint(0, 1), ty(rng, N_BOOL_TYPES)])
@@ -168,8 +233,10 @@ def gen_leaf(rng):
     if r < 0.82:
         c = rng.choice(["<", ">", "&", '"', "'", "\0", "a", "\u00e9", "\U0001F600", "\r", " ", "/"])
         return [1, ord(c)]
-    if r < 0.92:
+    if r < 0.88:
         return [3, rng.choice([0, 1, -1, 42, -7, 2 ** 40, -(2 ** 62)])]
+    if r < 0.94:
+        return [7] + gen_prim(rng)
     return [4]
 
 
@@ -195,18 +262,42 @@ def gen_view(rng, depth=0, tags=None, deep_tags=None):
     else:
         for _ in range(rng.choice([0, 1, 1, 2, 2, 3, 4])):
             kids.append(gen_view(rng, depth + 1, deep_tags=deep_tags))
-    return [2, tag, attrs, kids]
+        if not kids and rng.random() < 0.4:
+            attrs = gen_attrs(rng, tag, inner=True)
+    v = [2, tag, attrs, kids]
+    if rng.random() < 0.04:
+        # attributes handed to the (type-erased) element from outside
+        names = list(OUTER_NAMES)
+        rng.shuffle(names)
+        outer = [[0, b(names.pop()), b(text(rng)), ty(rng, N_ATTR_TYPES)] for _ in range(rng.randint(1, 2))]
+        if not any(a[0] == 6 for a in attrs) and rng.random() < 0.4:
+            outer.append([6, b(text(rng)), ty(rng, N_ATTR_TYPES)])
+        v = [8, outer, v]
+    return v
+
+
+def oracle_only(v):
+    """constructs the Coq model does not have: primitives other than char / i64, inner_html, outer attributes"""
+    if v[0] in (7, 8):
+        return True
+    if v[0] == 5:
+        return oracle_only(v[2])
+    if v[0] != 2:
+        return False
+    return any(a[0] in (7, 8) for a in v[2]) or any(oracle_only(k) for k in v[3])
 
 
 def gen_top(rng):
     v = gen_view(rng)
-    if v[0] != 2:
+    if v[0] not in (2, 8):
         v = [2, rng.choice([0, 1, 2]), gen_attrs(rng, 0), [v] + [gen_view(rng, 1) for _ in range(rng.randint(0, 3))]]
     return v
 
 
 def add_suspends(rng, v, counter, text_only=False):
     """wrap random children (any kind; inside text-only elements: the text-like ones) in Suspend"""
+    if v[0] == 8:
+        return [8, v[1], add_suspends(rng, v[2], counter)]
     if v[0] != 2:
         return v
     kids = []
@@ -319,7 +410,9 @@ def sprinkle_meta(rng, v, nodes):
     spots = []
 
     def walk(x):
-        if x[0] == 2 and x[1] in (0, 1, 2):
+        if x[0] == 8:
+            return walk(x[2])
+        if x[0] == 2 and x[1] in (0, 1, 2) and not any(a[0] == 8 for a in x[2]):
             spots.append(x)
             for k in x[3]:
                 walk(k)
@@ -332,7 +425,7 @@ def sprinkle_meta(rng, v, nodes):
 
 def gen_meta_doc(rng):
     v = gen_view(rng, 1, deep_tags=META_BODY_TAGS)
-    if v[0] != 2 or v[1] not in (0, 1, 2):
+    if v[0] != 2 or v[1] not in (0, 1, 2) or any(a[0] == 8 for a in v[2]):
         v = [2, 0, [], [v]]
     early = [gen_meta_node(rng) for _ in range(rng.choice([0, 1, 1, 2, 3]))]
     if rng.random() < 0.35:
@@ -531,9 +624,11 @@ def generate(rng, tier):
     for i in range(n):
         r = rng.random()
         if r < 0.55:
-            yield dict(case=[1, gen_top(rng)], kind="view", compare=True)
+            v = gen_top(rng)
+            yield dict(case=[1, v], kind="view", compare=not oracle_only(v))
         elif r < 0.66:
-            yield dict(case=gen_document(rng), kind="document", compare=True)
+            c = gen_document(rng)
+            yield dict(case=c, kind="document", compare=not oracle_only(c[6]))
         elif r < 0.74:
             yield dict(case=gen_meta_doc(rng), kind="metadoc", compare=False)
         elif r < 0.77:
@@ -579,6 +674,8 @@ def leaf_text(v):
         return chr(v[1])
     if v[0] == 3:
         return str(v[1])
+    if v[0] == 7:
+        return prim_text(v[1], v[2])
     return ""
 
 
@@ -617,6 +714,10 @@ def exp_attrs(attrs):
             styles = (styles or "") + s_of(a[1]) + ";"
         elif k == 5:
             styles = (styles or "") + s_of(a[1]) + ":" + s_of(a[2]) + ";"
+        elif k == 7:
+            out.append((s_of(a[1]), norm_attr(prim_text(a[2], a[3]))))
+        elif k == 8:
+            continue
         else:
             out.append(("id", norm_attr(s_of(a[1]))))
     if classes:
@@ -636,6 +737,10 @@ def exp_nodes(kids):
             out.append(exp_el(k))
         elif k[0] in (4, 6):
             continue
+        elif k[0] == 8:
+            # the outer attributes go to the element; a text takes none
+            inner = exp_nodes([k[2]])
+            out += [("el", n[1], n[2] + exp_attrs(k[1]), n[3]) if n[0] == "el" else n for n in inner]
         else:
             t = leaf_text(k)
             t = norm_body(t) if t else " "
@@ -648,6 +753,9 @@ def exp_el(v):
     attrs = exp_attrs(v[2])
     if v[1] in VOID:
         return ("el", tag, attrs, [])
+    inner = [a for a in v[2] if a[0] == 8]
+    if inner:
+        return ("el", tag, attrs, list(SNIPPET_TREES[inner[0][1]]))
     if v[1] in RCDATA or v[1] in RAW:
         raw = raw_content(v[3])
         if v[1] == 7 and v[3]:
@@ -820,7 +928,7 @@ def rawtext_breakouts(v):
     """script/style elements of the view whose text children contain something that ends or
     derails the raw-text context"""
     out = []
-    if v[0] == 5:
+    if v[0] in (5, 8):
         return rawtext_breakouts(v[2])
     if v[0] != 2:
         return out
@@ -847,6 +955,8 @@ def views_of(case):
 
 
 def has_element_in_text_only(v):
+    if v[0] == 8:
+        return has_element_in_text_only(v[2])
     if v[0] != 2:
         return False
     if (v[1] in RCDATA or v[1] in RAW) and any(k[0] == 2 for k in v[3]):
@@ -860,6 +970,8 @@ def meta_nodes(v, late=False, out=None):
     out = [] if out is None else out
     if v[0] == 6:
         out.append((late, v))
+    elif v[0] == 8:
+        meta_nodes(v[2], late, out)
     elif v[0] == 5:
         meta_nodes(v[2], True, out)
     elif v[0] == 2:
@@ -1188,6 +1300,29 @@ def valid_view(v, in_text_only=False):
         return len(v) == 2 and -(2 ** 63) <= v[1] < 2 ** 63
     if k == 4:
         return len(v) == 1
+    if k == 7:
+        return (len(v) == 3 and isinstance(v[1], int) and 0 <= v[1] < N_PRIMS and isinstance(v[2], int)
+                and -(2 ** 62) <= v[2] < 2 ** 62
+                and (v[1] != 19 or 0 <= v[2] < 0xD800 or 0xE000 <= v[2] <= 0x10FFFF))
+    if k == 8:
+        if len(v) != 3 or not isinstance(v[1], list) or not v[1] or v[2][0] != 2 or not valid_view(v[2]):
+            return False
+        seen = ["id"] if any(a[0] == 6 for a in v[2][2]) else []
+        for a in v[1]:
+            if a[0] == 0 and len(a) in (3, 4):
+                n = s_of(a[1])
+                bytes(a[2]).decode("utf-8")
+                if n not in OUTER_NAMES or n in seen or (len(a) == 4 and not (isinstance(a[3], int) and 0 <= a[3] < N_ATTR_TYPES)):
+                    return False
+                seen.append(n)
+            elif a[0] == 6 and len(a) in (2, 3):
+                bytes(a[1]).decode("utf-8")
+                if "id" in seen or (len(a) == 3 and not (isinstance(a[2], int) and 0 <= a[2] < N_ATTR_TYPES)):
+                    return False
+                seen.append("id")
+            else:
+                return False
+        return True
     if k == 6:
         if len(v) != 5 or not isinstance(v[3], list) or not isinstance(v[4], int) or not 0 <= v[4] < 6:
             return False
@@ -1202,6 +1337,19 @@ def valid_view(v, in_text_only=False):
     limits = {0: (3, [N_ATTR_TYPES]), 1: (3, [N_BOOL_TYPES]), 2: (2, [N_CLASS_TYPES]), 3: (3, [N_TOGGLE_TYPES]),
               4: (2, [N_STYLE_TYPES]), 5: (3, [N_PROP_TYPES, N_PROP_KEY_TYPES]), 6: (2, [N_ATTR_TYPES])}
     for a in v[2]:
+        if a[0] == 7:
+            n = s_of(a[1])
+            if (len(a) != 4 or n in names or n in ("class", "style", "id") or not n or n != n.lower()
+                    or any(c in n for c in " \t\n\r\f\"'>/=<&\0") or not valid_view([7, a[2], a[3]])):
+                return False
+            names.append(n)
+            continue
+        if a[0] == 8:
+            if (len(a) != 3 or not all(isinstance(x, int) for x in a[1:]) or not 0 <= a[1] < len(SNIPPET_TREES)
+                    or not 0 <= a[2] < N_INNER_TYPES or v[3] or v[1] not in (0, 1, 2)
+                    or sum(1 for x in v[2] if x[0] == 8) != 1):
+                return False
+            continue
         if a[0] not in limits:
             return False
         base, lims = limits[a[0]]
@@ -1237,7 +1385,7 @@ def valid_view(v, in_text_only=False):
     if v[1] == 7 and len(v[3]) > 1:
         return False
     if v[1] in RCDATA or v[1] in RAW:
-        if any(k[0] in (2, 4) or (k[0] == 5 and k[2][0] in (2, 4, 5)) for k in v[3]):
+        if any(k[0] in (2, 4, 6, 8) or (k[0] == 5 and k[2][0] in (2, 4, 5, 6, 8)) for k in v[3]):
             return False
         if v[1] == 6 and (raw_content(v[3]) or "")[:1] in ("\n", "\r"):
             return False
@@ -1263,7 +1411,7 @@ def _flat(v):
 
 
 def suspend_in_raw(v):
-    if v[0] == 5:
+    if v[0] in (5, 8):
         return suspend_in_raw(v[2])
     if v[0] != 2:
         return False
@@ -1275,11 +1423,13 @@ def suspend_in_raw(v):
 def has_suspend(v):
     if v[0] == 5:
         return True
+    if v[0] == 8:
+        return has_suspend(v[2])
     return v[0] == 2 and any(has_suspend(k) for k in v[3])
 
 
 def has_tag(v, tags):
-    if v[0] == 5:
+    if v[0] in (5, 8):
         return has_tag(v[2], tags)
     return v[0] == 2 and (v[1] in tags or any(has_tag(k, tags) for k in v[3]))
 
@@ -1287,7 +1437,7 @@ def has_tag(v, tags):
 def has_meta_in_text_only(v, inside=False):
     if v[0] == 6:
         return inside
-    if v[0] == 5:
+    if v[0] in (5, 8):
         return has_meta_in_text_only(v[2], inside)
     if v[0] != 2:
         return False
@@ -1309,6 +1459,11 @@ def show_view(v):
         return str(v[1])
     if v[0] == 4:
         return "()"
+    if v[0] == 7:
+        return "prim#%d(%r)" % (v[1], prim_text(v[1], v[2]))
+    if v[0] == 8:
+        return "add_any_attr[%s](%s)" % (" ".join(("id=%r" % s_of(a[1])) if a[0] == 6 else "%s=%r" % (s_of(a[1]), s_of(a[2]))
+                                                    for a in v[1]), show_view(v[2]))
     if v[0] == 6:
         if v[1] == 8:
             return "<literal #%d %s>" % (v[2], H.serialize(LIT_META[v[2]]).strip() if LIT_META[v[2]][0] == "el" else LIT_META[v[2]])
@@ -1333,6 +1488,10 @@ def show_view(v):
             at.append("style=%r" % s_of(a[1]))
         elif a[0] == 5:
             at.append("style:%s=%r" % (s_of(a[1]), s_of(a[2])))
+        elif a[0] == 7:
+            at.append("%s=prim#%d(%r)" % (s_of(a[1]), a[2], prim_text(a[2], a[3])))
+        elif a[0] == 8:
+            at.append("inner_html=snippet#%d" % a[1])
         else:
             at.append("id=%r" % s_of(a[1]))
     return "<%s %s>[%s]" % (TAGS[v[1]], " ".join(at), ", ".join(show_view(k) for k in v[3]))
@@ -1446,14 +1605,18 @@ def parser_agreement(results, limit=4000):
 
 
 def _count(v, pos, parent="ordinary"):
-    names = {0: "text child", 1: "char child", 3: "number child"}
+    if v[0] == 8:
+        pos["attribute added from outside (add_any_attr)"] = pos.get("attribute added from outside (add_any_attr)", 0) + len(v[1])
+        return _count(v[2], pos, parent)
+    names = {0: "text child", 1: "char child", 3: "number child", 7: "primitive child"}
     if v[0] in names:
         key = "%s in %s element" % (names[v[0]], parent)
         pos[key] = pos.get(key, 0) + 1
         return
     if v[0] != 2:
         return
-    an = {0: "attribute value", 2: "class", 3: "class toggle name", 4: "style", 5: "style property value", 6: "id"}
+    an = {0: "attribute value", 2: "class", 3: "class toggle name", 4: "style", 5: "style property value", 6: "id",
+          7: "primitive attribute value", 8: "inner_html (fixed snippets)"}
     for a in v[2]:
         if a[0] in an:
             pos[an[a[0]]] = pos.get(an[a[0]], 0) + 1
